@@ -31,11 +31,17 @@ Framing(a) == a \in {"ATTR", "TOTLEN"}
 Compatible(x, y) ==
   /\ x # y
   /\ ~(x[1] = y[1] /\ (x[2] = "miss" \/ y[2] = "miss"))
+  \* a second fault on a duplicated attribute: RFC 7606 3.g discards every occurrence but the first
+  \* unexamined, so what the pair calls for depends on which instance is hit - no defined reading
+  /\ ~(x[1] = y[1] /\ (x[2] = "dup" \/ y[2] = "dup"))
   /\ ~(x[1] = y[1] /\ ValueMutating(x[2]) /\ ValueMutating(y[2]))
   /\ ~(x[1] = "UNKNOWN" /\ y[1] = "UNKNOWN")
   /\ ~(Framing(x[1]) /\ Framing(y[1]))
   /\ ~(x[1] \in {"WDLEN", "WDPFX"} /\ y[1] \in {"WDLEN", "WDPFX"})
   /\ ~(x[1] = "NLRI" /\ y[1] = "NLRI")
+  \* "alone" = AS4_AGGREGATOR without AGGREGATOR: no other fault may bring an AGGREGATOR along
+  /\ ~(x = <<"AS4_AGGREGATOR", "alone">> /\ y[1] \in {"AS4_AGGREGATOR", "AGGREGATOR"})
+  /\ ~(y = <<"AS4_AGGREGATOR", "alone">> /\ x[1] \in {"AS4_AGGREGATOR", "AGGREGATOR"})
 
 (* a shortened Total Attribute Length cuts whatever attribute is last: do not pair it with a fault
    whose attribute was moved to the end (the cut would change the nature of that fault) *)
@@ -91,7 +97,8 @@ Spec == Init /\ [][Next]_<<pt, taw, base, faults>>
 FS == {[a |-> faults[i].a, k |-> faults[i].k] : i \in 1..Len(faults)}
 
 Emit == PrintT("VPOUT " \o ToJson([pt |-> pt, taw |-> taw, base |-> base, faults |-> faults,
-                                     lo |-> Lo(FS, pt, taw), rj |-> ResetJustified(FS, pt, taw)]))
+                                     lo |-> Lo(FS, pt, taw), rj |-> ResetJustified(FS, pt, taw),
+                                     kf |-> KFTags(FS, pt, taw)]))
 
 ---------------------------------------------------------------------------
 (* design level: mechanism layer against property layer *)
@@ -105,21 +112,22 @@ CatalogueWellFormed ==
      /\ <<r.a, r.k>> \in Kinds
 ASSUME CatalogueWellFormed
 
-(* faults for which the implementation's OWN class is weaker than the catalogue's obligation
-   (candidate findings by themselves, independent of how classes are combined) *)
+(* faults for which the implementation's OWN class is weaker than the catalogue's obligation are
+   known findings by themselves (zero-length lists, LOCAL_PREF on iBGP); the NLRI field not being
+   reached after an overrun is another.  Outside them: *)
 Under(f) == IF taw THEN Impl(f, pt).cls < Entry(f, pt).lo
             ELSE Entry(f, pt).lo # None /\ Impl(f, pt).cls = None
-NoUnder == \A f \in FS : ~Under(f)
+NoUnder == (\A f \in FS : ~Under(f)) /\ ~(StopsBeforeNlri(FS) /\ \E f \in FS : f.a = "NLRI")
 
 (* "strongest wins" holds for the repaired combination rule ... *)
 D_C06_NeverWeaker_Fixed == NoUnder => MechClass(FS, pt, taw, TRUE) >= Lo(FS, pt, taw)
-(* ... and for the code as it is exactly outside the known-finding predicate *)
-D_C06_NeverWeaker_KF == NoUnder => MechClass(FS, pt, taw, FALSE) >= Lo(Unmasked(FS, pt, taw), pt, taw)
+(* ... and for the code as it is exactly outside the known-finding predicates *)
+D_C06_NeverWeaker_KF == MechClass(FS, pt, taw, FALSE) >= Lo(Unmasked(FS, pt, taw), pt, taw)
 D_C06_MaskedIsTheOnlyGap ==
   (NoUnder /\ MechClass(FS, pt, taw, FALSE) < Lo(FS, pt, taw)) => Masked(FS, pt, taw)
-(* no reset the RFCs do not allow *)
+(* no reset the RFCs do not allow, except the AS4_AGGREGATOR one *)
 D_C06_ResetOnlyIfCalledFor ==
-  \A fx \in BOOLEAN : MechClass(FS, pt, taw, fx) = ResetC => ResetJustified(FS, pt, taw)
+  \A fx \in BOOLEAN : (MechClass(FS, pt, taw, fx) = ResetC /\ ~KF_As4Agg(FS)) => ResetJustified(FS, pt, taw)
 D_C06_WellFormedNotPenalised ==
-  \A fx \in BOOLEAN : Real(FS, pt) = {} => MechClass(FS, pt, taw, fx) = None
+  \A fx \in BOOLEAN : (Real(FS, pt) = {} /\ ~KF_As4Agg(FS)) => MechClass(FS, pt, taw, fx) = None
 =============================================================================
